@@ -417,11 +417,11 @@ theorem spec_copy_gen {so : Spec.Opts} {sz acc : Nat} {doc : Value} {sop : Spec.
     (hk : sop.kind = .copy) (hp : Spec.parsePointer sop.path = some (pt :: pts))
     (hf : Spec.parsePointer sop.frm = some ftoks) :
     Spec.applyOp so sz acc doc sop =
-      (copySrc so doc ftoks).bind fun v =>
+      (eng_copySrc so doc ftoks).bind fun v =>
         (Spec.atParent so (fun p _ => .ok (p, ())) doc (pt :: pts)).bind fun _ =>
           if so.limit > 0 ∧ acc + sz > so.limit then .fail .copyLimit
           else (Spec.atParent so (Spec.addIn so v) doc (pt :: pts)).bind fun vb => .ok (vb.1, acc + sz) := by
-  simp only [Spec.applyOp, hp, hk, hf, copySrc]
+  simp only [Spec.applyOp, hp, hk, hf, eng_copySrc]
   cases ftoks with
   | nil =>
     simp only [Res.bind]
@@ -498,7 +498,7 @@ theorem applyOp_keeps (o : Spec.Opts) (ho : o.ensure = false) (sz acc acc' : Nat
     | none => rw [spec_copy_none hkind hp hf] at h; cases h
     | some ftoks =>
       rw [spec_copy_gen hkind hp hf] at h
-      cases hsrc : copySrc o (.obj ms) ftoks with
+      cases hsrc : eng_copySrc o (.obj ms) ftoks with
       | unspec => rw [hsrc] at h; cases h
       | fail c => rw [hsrc] at h; cases h
       | ok v =>
